@@ -38,6 +38,42 @@ def vsub (a b : List α) : List α := List.zipWith (· - ·) a b
 def colMean (p : Nat) (X : List (List α)) : List α :=
   (X.foldl vadd (List.replicate p 0)).map (· / (X.length : α))
 
+/-- the `while xs.len() >= 8` loop of ndarray's `unrolled_fold` with its eight partial sums -/
+def unrolled8 : List α → (α × α × α × α × α × α × α × α) →
+    (α × α × α × α × α × α × α × α) × List α
+  | x0 :: x1 :: x2 :: x3 :: x4 :: x5 :: x6 :: x7 :: rest, (p0, p1, p2, p3, p4, p5, p6, p7) =>
+    unrolled8 rest (p0 + x0, p1 + x1, p2 + x2, p3 + x3, p4 + x4, p5 + x5, p6 + x6, p7 + x7)
+  | xs, p => (p, xs)
+
+/-- ndarray `ArrayBase::sum` on a contiguous lane (`unrolled_fold(slice, zero, add)`):
+`acc = 0; acc += p0+p4; acc += p1+p5; acc += p2+p6; acc += p3+p7;` then the (< 8) remaining
+elements one by one -/
+def ndSum (xs : List α) : α :=
+  match unrolled8 xs (0, 0, 0, 0, 0, 0, 0, 0) with
+  | ((p0, p1, p2, p3, p4, p5, p6, p7), rest) =>
+    rest.foldl (· + ·) ((((0 + (p0 + p4)) + (p1 + p5)) + (p2 + p6)) + (p3 + p7))
+
+/-- memory layout of the record matrix handed to `fit` (`Fit` is implemented for every
+`ArrayBase<D, Ix2>`, owned or view): C order, Fortran order, a C-order view with a column step,
+a Fortran-order view with a row step -/
+inductive Layout where
+  | c | f | cStrided | fStrided
+  deriving Repr, DecidableEq
+
+/-- column `j` of a list of rows (missing entries read as 0; rows have width `p` in every use) -/
+def column (X : List (List α)) (j : Nat) : List α := X.map (·.getD j 0)
+
+/-- `x.mean_axis(Axis(0))` as ndarray 0.15 computes it (`sum_axis`): when axis 0 is the axis of
+smallest stride (a Fortran-order matrix with more than one row) every column lane is summed on its
+own — with the unrolled `sum` when the lane is contiguous (`Layout.f`), element by element when it
+is not (`Layout.fStrided`, same order of additions as below) —, otherwise the rows are added one
+after the other to a zero row (`colMean`). -/
+def colMeanL (lay : Layout) (p : Nat) (X : List (List α)) : List α :=
+  match lay with
+  | .f => if 1 < X.length then (List.range p).map fun j => ndSum (column X j) / (X.length : α)
+          else colMean p X
+  | _ => colMean p X
+
 /-- `x - &mean` (row broadcast) -/
 def center (X : List (List α)) (mean : List α) : List (List α) := X.map (vsub · mean)
 
@@ -57,14 +93,30 @@ structure Model (α : Type) where
   mean : List α
   nSamples : Nat
 
-/-- `PcaParams::fit`; `svd` stands for
-`TruncatedSvd::new_with_rng(x, Largest, SmallRng(42)).decompose(k)?.values_vectors()` -/
+/-- `pca::leading_svd(x, num)` (the `not(blas)` path): with `dim = min(nrows, ncols)`, problems with
+`dim < 5 * num` are solved densely (`dense x dim` stands for
+`TruncatedSvd::new_with_rng(x, Largest, SmallRng(42)).maxiter(0).decompose(dim)?.values_vectors()`,
+all pairs the solver keeps, largest first) and the leading `min(num, len)` pairs are kept; the others
+go to LOBPCG (`iter x num` = the same solver with `.decompose(num)`). -/
+def leadingSvd {ε : Type} (dense iter : List (List α) → Nat → Except ε (List α × List (List α)))
+    (p : Nat) (x : List (List α)) (num : Nat) : Except ε (List α × List (List α)) :=
+  let dim := min x.length p
+  if dim < 5 * num then
+    match dense x dim with
+    | .error e => .error e
+    | .ok (σ, vt) => let keep := min num σ.length; .ok (σ.take keep, vt.take keep)
+  else iter x num
+
+/-- `PcaParams::fit`; `svd` stands for `leading_svd` (`leadingSvd` above with the two solver calls
+as parameters); `lay` is the memory layout of the records (it only decides the order of the
+additions in the column mean). Targets and weights of the dataset are not read. -/
 def fit [Transc α] {ε : Type} (fl : α) (svd : List (List α) → Nat → Except ε (List α × List (List α)))
-    (k : Nat) (whitening : Bool) (p : Nat) (X : List (List α)) : Except (FitErr ε) (Model α) :=
+    (k : Nat) (whitening : Bool) (lay : Layout) (p : Nat) (X : List (List α)) :
+    Except (FitErr ε) (Model α) :=
   match guard (ε := ε) X.length p k with
   | some e => .error e
   | none =>
-    let mean := colMean p X
+    let mean := colMeanL lay p X
     let xc := center X mean
     match svd xc k with
     | .error e => .error (.linalg e)
@@ -102,6 +154,25 @@ def backRows (W : List (List α)) : List (List α) := W.map fun v => let s := sq
 def inverseTransform (m : Model α) (Z : List (List α)) : List (List α) :=
   let B := backRows m.embedding
   Z.map fun z => vadd (combo m.mean.length z B) m.mean
+
+/-- what `Transformer::transform` / the `Predict` forms see of a `DatasetBase`: records, targets,
+weights (any types for the last two: they are moved, never read) -/
+structure Dataset (α τ ω : Type) where
+  records : List (List α)
+  targets : τ
+  weights : ω
+
+/-- `Transformer::transform(DatasetBase)`: the records are replaced by their projection, targets
+and weights are moved into the new dataset -/
+def transformDataset {τ ω : Type} (m : Model α) (ds : Dataset α τ ω) : Dataset α τ ω :=
+  { records := transform m ds.records, targets := ds.targets, weights := ds.weights }
+
+/-- `Predict::predict(DatasetBase)` (linfa's blanket impl over `predict_inplace`): the records stay,
+the projection becomes the targets; the blanket impl builds the result with `DatasetBase::new`, so
+the weights are dropped (empty) -/
+def predictDataset {τ ω : Type} (m : Model α) (ds : Dataset α τ ω) (noWeights : ω) :
+    Dataset α (List (List α)) ω :=
+  { records := ds.records, targets := transform m ds.records, weights := noWeights }
 
 end
 
